@@ -93,7 +93,10 @@ StableSort(s, c) == IF s = <<>> THEN <<>> ELSE InsertBefore(s[1], StableSort(Tai
 \* ---------------------------------------------------------------- streams
 Ids(n) == [i \in 1..n |-> i]
 Ones(n) == [i \in 1..n |-> 1]
-Mk(s, cls, by) == [s |-> s, cls |-> cls, by |-> by]
+\* w: the stream is handed over in a single batch (the output of a sort, possibly
+\* passed through per-value operators); otherwise it may arrive value by value
+Mk(s, cls, by) == [s |-> s, cls |-> cls, by |-> by, w |-> FALSE]
+Whole(x) == [x EXCEPT !.w = TRUE]
 Seqd(s) == Mk(s, Ids(Len(s)), NoCmp)          \* the sequence is defined
 Bag(s)  == Mk(s, Ones(Len(s)), NoCmp)         \* only the multiset is defined
 Ord(x) == \A i \in 1..Len(x.s) : \A j \in i+1..Len(x.s) : x.cls[i] = x.cls[j] => x.s[i] = x.s[j]
@@ -251,7 +254,7 @@ CanSplit(x, f, desc) ==
         /\ \A p \in 1..n : x.cls[p] < x.cls[o1] => KCmp(desc, ks[e], ks[p]) > 0
 \* a sort hands its whole output over in one batch: nothing is released in between
 GroupedAlways(x, f, desc) ==
-  \/ x.by # NoCmp /\ x.by.f = f /\ SortedBy(x.s, x.by)
+  \/ x.w /\ x.by # NoCmp /\ x.by.f = f /\ SortedBy(x.s, x.by)
   \/ ~CanSplit(x, f, desc)
 \* input validity for declared sort keys (Rewrite.tla): equal keys are contiguous
 Grouped(s, f) == \A i \in 1..Len(s) : \A j \in i+1..Len(s) :
@@ -355,8 +358,8 @@ SemOp(op, st) ==
          IN
          CASE op.k \in {"where", "cut", "drop", "put", "rename", "yield", "pass"} ->
                 LET pr == MapPairs(op, x.s, x.cls) IN
-                St(<<Mk([i \in 1..Len(pr) |-> pr[i].v], [i \in 1..Len(pr) |-> pr[i].c],
-                        IF KeepsKey(op, x.by, x.s) THEN x.by ELSE NoCmp)>>, st.det, st.poison)
+                St(<<[Mk([i \in 1..Len(pr) |-> pr[i].v], [i \in 1..Len(pr) |-> pr[i].c],
+                         IF KeepsKey(op, x.by, x.s) THEN x.by ELSE NoCmp) EXCEPT !.w = x.w]>>, st.det, st.poison)
            [] op.k = "cutcount" ->      \* cut c:=count(): a running count, in emission order
                 St(<<Seqd([i \in 1..n |-> RecV(<<Fld("c", IntV(i))>>)])>>, st.det, st.poison)
            [] op.k = "sort" ->
@@ -372,14 +375,14 @@ SemOp(op, st) ==
                     ix == SortIx(Ids(n))
                     m == [i \in 1..n |-> x.s[ix[i]]]
                     oc == [i \in 1..n |-> x.cls[ix[i]]]
-                IN St(<<Mk(m, ClsBy(n, LAMBDA i, j : Cmp(c, m[i], m[j]) = 0 /\ oc[i] = oc[j]), c)>>, st.det, st.poison)
+                IN St(<<Whole(Mk(m, ClsBy(n, LAMBDA i, j : Cmp(c, m[i], m[j]) = 0 /\ oc[i] = oc[j]), c))>>, st.det, st.poison)
            [] op.k = "head" ->
                 LET k == IF op.n < n THEN op.n ELSE n IN
-                St(<<Mk(SubSeq(x.s, 1, k), SubCls(x.cls, 1, k), x.by)>>,
+                St(<<[Mk(SubSeq(x.s, 1, k), SubCls(x.cls, 1, k), x.by) EXCEPT !.w = x.w]>>,
                    st.det /\ (n <= op.n \/ x.cls[k] # x.cls[k + 1] \/ ClassUniform(x, k)), st.poison)
            [] op.k = "tail" ->
                 LET a == IF n > op.n THEN n - op.n + 1 ELSE 1 IN
-                St(<<Mk(SubSeq(x.s, a, n), SubCls(x.cls, a, n), x.by)>>,
+                St(<<[Mk(SubSeq(x.s, a, n), SubCls(x.cls, a, n), x.by) EXCEPT !.w = x.w]>>,
                    st.det /\ (n <= op.n \/ x.cls[a - 1] # x.cls[a] \/ ClassUniform(x, a)), st.poison)
            [] op.k = "uniq" ->
                 \* adjacent duplicates: defined when the sequence is
